@@ -1619,16 +1619,36 @@ def x_snprintf(ex, st, fr, ins, args):
     dbl = [i for i, a in enumerate(args) if isinstance(a, IntD)]
     for i in dbl:
         args[i] = args[i].e  # fork over the integer values of integer-valued doubles
-    symi = [i for i, a in enumerate(args) if i != 2 and is_sym(a) and not z3.is_fp(a)]
+    symi = [i for i, a in enumerate(args) if i not in (1, 2) and is_sym(a) and not z3.is_fp(a)]
 
     def body(s2, a):
         a = list(a)
         for i in dbl:
             a[i] = float(sgn(a[i], 64)) if not is_sym(a[i]) else a[i]
-        return _snprintf(ex, s2, a)
+        size = a[1]
+        if not is_sym(size):
+            return _snprintf(ex, s2, a)
+        # symbolic buffer size: either the whole text fits, or (few cases) it is cut at size-1
+        a_fit = list(a)
+        a_fit[1] = 1 << 20
+        text_len = _snprintf(ex, s2.clone(), a_fit)
+        outs = []
+        for s3, fits in ex.branch(s2, z3.UGT(bv(size, 64), z3.BitVecVal(text_len, 64))):
+            if fits:
+                _snprintf(ex, s3, a_fit)
+                s3.frames[-1].regs[ins.dst] = text_len
+                outs.append(s3)
+            else:
+                for s4, sz in ex.fork_values(s3, size, 'snprintf size', limit=text_len + 2):
+                    a4 = list(a)
+                    a4[1] = sz
+                    s4.frames[-1].regs[ins.dst] = _snprintf(ex, s4, a4)
+                    outs.append(s4)
+        return outs
     if symi:
         return ex.fork_call(st, ins, args, symi, body)
-    return body(st, args)
+    r = body(st, args)
+    return r
 
 
 def _snprintf(ex, st, args):
